@@ -297,6 +297,15 @@ def validity(run, im, rng, ncases):
                 n = 9       # the recorded findings are replayed on this grid in every run
             deg = np.linspace(0, 360, n, endpoint=False)
             run.count("valid_" + kind)
+            if case % 25 == 12:
+                # a conversion with the documented solver_config in between (benign moments, strict setting): the default
+                # calls that follow are still default calls
+                try:
+                    im.estimate.estimate_directional_distribution(*[np.array([v]) for v in (0.3, 0.1, 0.05, 0.0)], deg, method="mem2",
+                                                                  solution_method="newton", solver_config={"use_mem_when_failing_to_converge": False})
+                    run.count("valid_after_solver_config_call")
+                except Exception:
+                    run.count("solver_config_call_raised")
             for variant in VARIANTS:
                 if variant == "mem2/scipy" and case % 3 and kind != "hard":
                     continue
@@ -427,7 +436,7 @@ def batches(run, im, rng, ncases):
                     run.count("batch_member_bitwise_equal")
                 elif close(E2f[i, j], alone, 1e-9):
                     run.count("batch_member_equal_to_rounding")     # fastmath SIMD lanes vs scalar remainder loop
-                elif variant in ("mem2/newton", "mem2/scipy") and float(np.linalg.norm(
+                elif (variant == "mem2/newton" or (variant == "mem2/scipy" and close(E2f[i, j], alone, 1e-3))) and float(np.linalg.norm(
                         recomputed_moments(alone / ef[i, j], deg) - flat[i, j])) >= ATOL:
                     # the iteration did not converge for this member even alone: what is returned is the last iterate of a
                     # failed iteration, which depends on the last bits of the (fastmath-vectorised) first guess
@@ -689,6 +698,10 @@ def fidelity_grids(run, im, rng, ncases):
                     m, _ = resolved(rng, n)
                     ms.append(m)
                 ms.append(mirror_moments(ms[0]))
+                # a fifth point without directional information (a buoy below its low-frequency cut-off): the others are
+                # still estimated from their own moments
+                ms.append([float("nan")] * 4)
+                run.count("batch_with_a_point_without_moments")
             elif kind == "two_peaked":
                 # two narrow peaks (6-10 degrees wide, 40-80 degrees apart): resolved by the grid, and the Newton iteration
                 # needs more than a handful of steps for them
@@ -744,6 +757,8 @@ def fidelity_grids(run, im, rng, ncases):
                 D = np.asarray(D, dtype=float).reshape(len(ms), -1)
                 out[variant] = D
                 for i, mm in enumerate(ms):
+                    if not np.all(np.isfinite(mm)):
+                        continue
                     norm = float(np.sum(D[i] * w))
                     if abs(norm - 1.0) > 1e-6:
                         run.violation("the reconstructed distribution does not integrate to one with the grid's own bin widths",
@@ -761,6 +776,8 @@ def fidelity_grids(run, im, rng, ncases):
                             run.violation("MEM2 does not reproduce a1,b1,a2,b2 within the solver tolerance for a resolved distribution",
                                           dict(info, variant=variant, point=i, error=err, recomputed=got.tolist()))
             for i in range(len(ms)):
+                if not np.all(np.isfinite(ms[i])):
+                    continue
                 e_ns = float(np.linalg.norm(moments_on(out["mem2/newton"][i], deg, w) - moments_on(out["mem2/scipy"][i], deg, w)))
                 if e_ns >= 2 * ATOL:
                     run.violation("the Newton and scipy solutions disagree by more than the tolerance", dict(info, point=i, difference=e_ns))
@@ -816,6 +833,47 @@ def jacobian_fd(run, im, rng, ncases):
                 run.violation("mem2_jacobian is not symmetric", dict(moments=m, N=n, lam=lam.tolist()))
 
 
+def scipy_batches(run, im, rng, ncases):
+    """MEM2 with scipy's root finder on batches of *similar* spectra (the directional shape barely changes with frequency and
+    from spectrum to spectrum; noisy, possibly unrealisable moments, for which the end point of the root finder depends on
+    where it starts): a spectrum converted inside the batch equals the same spectrum converted alone."""
+    for case in range(ncases):
+        with common.guard(run, f"scipy batch case {case}"), warnings.catch_warnings():
+            warnings.simplefilter("ignore")
+            n = rng.choice([24, 36])
+            deg = np.linspace(0, 360, n, endpoint=False)
+            npts, nf = rng.choice([2, 3, 4]), rng.choice([3, 5])
+            spow, mu = rng.uniform(3.0, 10.0), rng.uniform(-math.pi, math.pi)
+            r1, r2 = spow / (spow + 1), spow * (spow - 1) / ((spow + 1) * (spow + 2))
+            base = np.array([r1 * math.cos(mu), r1 * math.sin(mu), r2 * math.cos(2 * mu), r2 * math.sin(2 * mu)])
+            scale = rng.choice([0.03, 0.08, 0.15])
+            quads = np.empty((npts, nf, 4))
+            for a in range(npts):
+                for b in range(nf):
+                    while True:
+                        q = base + np.array([rng.gauss(0, scale) for _ in range(4)])
+                        if q[0] ** 2 + q[1] ** 2 < 0.98 and abs(q[2]) < 1 and abs(q[3]) < 1:
+                            break
+                    quads[a, b] = q
+            cols = [np.ascontiguousarray(quads[..., c]) for c in range(4)]
+            run.case("scipy_batch", key=(case,))
+            info = dict(N=n, points=npts, frequencies=nf, moments=quads.tolist())
+            D = np.asarray(im.estimate.estimate_directional_distribution(*cols, deg, method="mem2", solution_method="scipy"), dtype=float)
+            for a in range(npts):
+                alone = np.asarray(im.estimate.estimate_directional_distribution(*[c[a:a + 1] for c in cols], deg, method="mem2",
+                                                                                solution_method="scipy"), dtype=float)[0]
+                for b in range(nf):
+                    if close(D[a, b], alone[b], 1e-3):
+                        run.count("scipy_batch_member_equal")
+                    elif amplifies_rounding(lambda mm: im.distribution(mm, deg, "mem2/scipy"), list(quads[a, b]), alone[b],
+                                            float(np.max(np.abs(alone[b] - D[a, b])))):
+                        run.count("scipy_batch_member_ill_conditioned")
+                    else:
+                        run.violation("a spectrum of a batch (scipy root finder, similar spectra) does not get the result it gets alone",
+                                      dict(info, point=a, frequency=b, max_abs_diff=float(np.max(np.abs(alone[b] - D[a, b]))),
+                                           peak=float(np.max(alone[b]))))
+
+
 def main(prop, tier, seed):
     run = common.Run(prop, tier, seed)
     if prop == "C06":
@@ -837,6 +895,7 @@ def main(prop, tier, seed):
             with common.guard(run, "batch phase"):
                 batches(run, im, run.rng, 120 if thorough else 16)
             array_entry(run, im, run.rng, 90 if thorough else 12)
+            scipy_batches(run, im, run.rng, 60 if thorough else 8)
             with common.guard(run, "grid sweep"):
                 grid_sweep(run, im, run.rng)
             rule = RULE_C05
